@@ -244,6 +244,8 @@ class ConvexPolyhedron(Polyhedron):
 
     @volume.setter
     def volume(self, value: Number):
+        if not value > 0:
+            raise ValueError("Volume must be greater than zero.")
         scale_factor = np.cbrt(value / self._volume)
         self._rescale(scale_factor)
 
@@ -254,6 +256,8 @@ class ConvexPolyhedron(Polyhedron):
 
     @surface_area.setter
     def surface_area(self, value: Number):
+        if not value > 0:
+            raise ValueError("Surface area must be greater than zero.")
         scale_factor = np.sqrt(value / self._area)
         self._rescale(scale_factor)
 
